@@ -78,23 +78,32 @@ def run(ctx):
             name = 'lose_root' if same_side else 'win_root'
             key = 'apply:%s:conflict-copy@%s' % ('+'.join(arms), name)
             guarded = False
+            looked = set()       # which replica's scan was consulted ('a' / 'b'), or 'fs' for a look at the file system
             dst_sig = derived_sig(fl, dst[2])
             for lb, lt in fl.calls(lambda c: c in LOOKERS):
                 args_o = set()
                 for a in lt['args']:
                     args_o |= fl.origins(a, mut_calls=True)
                 if derived_sig(fl, args_o) & dst_sig:
+                    this = False
                     oc = fl.outcomes(lb)
                     if any(cfg.edges_guard(e, cb) for e in oc.values() if e):
-                        guarded = True
+                        guarded = this = True
                     # the look may be consumed by an Option/Result predicate (`.is_some_and(..)`, `.is_none()`, `.map_or(..)`):
                     # then the predicate's edges are the evidence
                     for ub, ut in fl.calls(lambda c: c.split('::')[-1] in ('is_some_and', 'is_some', 'is_none', 'is_none_or', 'map_or', 'is_ok', 'is_err', 'is_ok_and')):
                         if any(o.kind == 'call' and o.bb == lb for o in fl.origins(ut['args'][0])):
                             oc2 = fl.outcomes(ub)
                             if any(cfg.edges_guard(e, cb) for e in oc2.values() if e):
-                                guarded = True
-            ctx.check(guarded, 'C02.R2', key, 'guarded by a look at the destination name',
+                                guarded = this = True
+                    if this:
+                        m_o = fl.origins(lt['args'][0]) if lt['args'] else set()
+                        looked.add('a' if bs.is_param(m_o, 'a') else 'b' if bs.is_param(m_o, 'b') else 'fs')
+            # the copy lands on both replicas (one call per root): what is known about BOTH must be consulted - a look that
+            # asks the second scan only when the first does not list the name misses an edit made on the second side only
+            if guarded and 'fs' not in looked and looked != {'a', 'b'}:
+                guarded = False
+            ctx.check(guarded, 'C02.R2', key, 'guarded by a look at the destination name on both replicas',
                       'conflict-copy is written with copy_atomic without looking at what already lives at the derived name: '
                       'an edited earlier conflict-copy with the same name is overwritten', term_loc(bs.apply, cb))
         elif dst[0] == 'other':
